@@ -649,3 +649,129 @@ Proof.
     + apply memn_false in Em. split; auto. intros y. split; [|tauto]. intros Hy. split; auto. intros ->.
       apply In_abstract in Hy. destruct Hy as [[Hr Hnr]|Ha]; [destruct (Hlink Hr); contradiction | apply Em, (i_added_items _ _ H); auto].
 Qed.
+
+(* ------------------------------------------------------------------ one-to-many, both sides: the link invariant is maintained *)
+Record LInv (st : ostate) : Prop := mkLInv {
+  l_inv : Inv (os_rows st) (os_sd st);
+  l_link : forall x, In x (os_loaded st) -> In x (os_rows st) -> In x (sd_items (os_sd st)) \/ In x (sd_removed (os_sd st));
+  l_added : forall x, In x (sd_added (os_sd st)) -> In x (os_loaded st);
+  l_removed : forall x, In x (sd_removed (os_sd st)) -> In x (os_loaded st)
+}.
+
+Definition oabstract (st : ostate) : list nat := abstract (os_rows st) (os_sd st).
+
+Lemma load_item_LInv : forall x st, LInv st -> LInv (load_item x st) /\ oabstract (load_item x st) = oabstract st.
+Proof.
+  intros x st [Hi Hl Ha Hr]. unfold load_item.
+  destruct (memn x (os_loaded st)) eqn:El; [split; [constructor; auto | reflexivity]|].
+  apply memn_false in El.
+  destruct (memn x (os_rows st) && negb (memn x (sd_items (os_sd st)))) eqn:Ec.
+  - apply andb_true_iff in Ec as [Er Ei]. apply memn_In in Er. apply negb_true_iff, memn_false in Ei.
+    assert (Hnr : ~ In x (sd_removed (os_sd st))) by (intros Hc; apply El, Hr; auto).
+    split; [|reflexivity]. constructor; cbn [os_rows os_sd os_loaded sd_items sd_added sd_removed].
+    + constructor; cbn [sd_items sd_added sd_removed sd_full sd_absent sd_count].
+      * apply Hi.
+      * apply nodup_app; [apply Hi | constructor; [intros []|constructor] | intros y Hy [<-|[]]; contradiction].
+      * apply Hi.
+      * apply Hi.
+      * intros y Hy. apply in_app_or in Hy. destruct Hy as [Hy|[<-|[]]]; [apply (i_sound _ _ Hi); auto|].
+        apply In_abstract. left; auto.
+      * intros y Hy. apply in_or_app. left. apply (i_added_items _ _ Hi). auto.
+      * apply Hi.
+      * apply Hi.
+      * intros Hf y Hy. apply in_or_app. left. apply (i_full _ _ Hi Hf). exact Hy.
+      * intros ab Hab y Hy. destruct (i_absent _ _ Hi ab Hab y Hy) as [A|A]; [left; apply in_or_app; left; auto | right; exact A].
+      * intros n Hn. apply (i_count _ _ Hi n Hn).
+    + intros y [<-|Hy] Hyr; [left; apply in_or_app; right; left; auto|].
+      destruct (Hl y Hy Hyr) as [A|A]; [left; apply in_or_app; left; auto | right; auto].
+    + intros y Hy. right. apply Ha. auto.
+    + intros y Hy. right. apply Hr. auto.
+  - split; [|reflexivity]. constructor; cbn [os_rows os_sd os_loaded]; auto.
+    + intros y [<-|Hy] Hyr; [|apply Hl; auto].
+      apply andb_false_iff in Ec. destruct Ec as [Ec|Ec].
+      * apply memn_false in Ec. contradiction.
+      * apply negb_false_iff, memn_In in Ec. left; auto.
+    + intros y Hy. right. apply Ha; auto.
+    + intros y Hy. right. apply Hr; auto.
+Qed.
+
+Lemma o_flush_LInv : forall st, LInv st -> LInv (o_flush st) /\ oabstract (o_flush st) = oabstract st.
+Proof.
+  intros st [Hi Hl Ha Hr]. split; [|apply flush_abstract]. constructor; cbn [o_flush os_rows os_sd os_loaded].
+  - apply flush_Inv. auto.
+  - intros x Hx Hxr. left. cbn [flush_sd sd_items]. unfold flush_rows in Hxr. apply In_abstract in Hxr.
+    destruct Hxr as [[A B]|A]; [destruct (Hl x Hx A); [auto | contradiction] | apply (i_added_items _ _ Hi); auto].
+  - intros x [].
+  - intros x [].
+Qed.
+
+Lemma o_load_full_LInv : forall st, LInv st -> LInv (o_load_full st) /\ oabstract (o_load_full st) = oabstract st.
+Proof.
+  intros st [Hi Hl Ha Hr]. split; [|reflexivity]. constructor; cbn [o_load_full os_rows os_sd os_loaded].
+  - apply load_full_Inv. auto.
+  - intros x _ Hxr. destruct (in_dec Nat.eq_dec x (sd_removed (os_sd st))) as [A|A]; [right; exact A|].
+    left. apply load_full_items; auto. apply In_abstract. left; auto.
+  - intros x Hx. apply in_or_app. left. apply Ha. exact Hx.
+  - intros x Hx. apply in_or_app. left. apply Hr. exact Hx.
+Qed.
+
+Lemma is_loaded_true : forall st x, In x (os_loaded st) -> is_loaded st x = true.
+Proof. intros. unfold is_loaded. apply memn_In. auto. Qed.
+
+Lemma o_add_LInv : forall x st, LInv st -> In x (os_loaded st) ->
+  LInv (o_add x st) /\ (forall y, In y (oabstract (o_add x st)) <-> In y (oabstract st) \/ y = x).
+Proof.
+  intros x st HL Hx. destruct HL as [Hi Hl Ha Hr].
+  destruct (do_add_o_spec (is_loaded st) x _ _ Hi (is_loaded_true _ _ Hx) (Hl x Hx)) as [Hi' Habs].
+  split; [|exact Habs]. unfold o_add in *. unfold do_add_o in *.
+  destruct (memn x (sd_items (os_sd st))) eqn:Em.
+  - destruct (sd_full (os_sd st)) eqn:Ef.
+    + constructor; auto.
+    + destruct (o_load_full_LInv st (mkLInv _ Hi Hl Ha Hr)) as [[A B C D] _]. constructor; auto.
+  - assert (Hsame : (if sd_full (os_sd st) then os_sd st else load_for_o (is_loaded st) (os_rows st) [x] (os_sd st)) = os_sd st).
+    { destruct (sd_full (os_sd st)); auto. apply load_for_o_loaded. intros y [<-|[]]. apply is_loaded_true; auto. }
+    rewrite Hsame in *. rewrite Em in *.
+    assert (Hload : (if sd_full (os_sd st) then os_loaded st else os_loaded st) = os_loaded st) by (destruct (sd_full (os_sd st)); auto).
+    constructor; cbn [os_rows os_sd os_loaded]; rewrite ?Hload; auto.
+    + intros y Hy Hyr. cbn [sd_add sd_items sd_removed]. destruct (Hl y Hy Hyr) as [A|A]; [left; right; auto|].
+      destruct (Nat.eq_dec y x) as [->|Hne]; [left; left; auto | right; apply In_without; auto].
+    + intros y Hy. cbn [sd_add sd_added] in Hy. destruct (memn x (sd_removed (os_sd st))); [apply Ha; auto|].
+      destruct Hy as [<-|Hy]; [auto | apply Ha; auto].
+    + intros y Hy. cbn [sd_add sd_removed] in Hy. apply In_without in Hy. apply Hr. tauto.
+Qed.
+
+Lemma o_remove_LInv : forall x st, LInv st -> In x (os_loaded st) ->
+  LInv (o_remove x st) /\ (forall y, In y (oabstract (o_remove x st)) <-> In y (oabstract st) /\ y <> x).
+Proof.
+  intros x st HL Hx. destruct HL as [Hi Hl Ha Hr].
+  destruct (do_remove_o_fixed_spec (is_loaded st) x _ _ Hi (is_loaded_true _ _ Hx) (Hl x Hx)) as [Hi' Habs].
+  split; [|exact Habs]. unfold o_remove in *. unfold do_remove_o_fixed in *.
+  destruct (memn x (sd_removed (os_sd st))) eqn:Er; [constructor; auto|].
+  assert (Hsame : (if sd_full (os_sd st) then os_sd st else load_for_o (is_loaded st) (os_rows st) [x] (os_sd st)) = os_sd st).
+  { destruct (sd_full (os_sd st)); auto. apply load_for_o_loaded. intros y [<-|[]]. apply is_loaded_true; auto. }
+  rewrite Hsame in *. destruct (memn x (sd_items (os_sd st))) eqn:Em; [|constructor; auto].
+  constructor; cbn [os_rows os_sd os_loaded]; auto.
+  - intros y Hy Hyr. cbn [sd_remove sd_items sd_removed].
+    destruct (Nat.eq_dec y x) as [->|Hne].
+    + right. destruct (memn x (sd_added (os_sd st))) eqn:Ea; [|left; auto].
+      exfalso. apply memn_In in Ea. apply (i_added_new _ _ Hi x Ea). exact Hyr.
+    + destruct (Hl y Hy Hyr) as [A|A]; [left; apply In_without; auto|].
+      right. destruct (memn x (sd_added (os_sd st))); [auto | right; auto].
+  - intros y Hy. cbn [sd_remove sd_added] in Hy. apply In_without in Hy. apply Ha. tauto.
+  - intros y Hy. cbn [sd_remove sd_removed] in Hy. destruct (memn x (sd_added (os_sd st))); [apply Hr; auto|].
+    destruct Hy as [<-|Hy]; [auto | apply Hr; auto].
+Qed.
+
+Lemma linv_b_LInv : forall st, linv_b st = true -> LInv st.
+Proof.
+  intros st H. unfold linv_b in H.
+  apply andb_true_iff in H as [H Hrm]. apply andb_true_iff in H as [H Had]. apply andb_true_iff in H as [Hinv Hlk].
+  constructor.
+  - apply inv_b_Inv; auto.
+  - intros x Hx Hxr. rewrite forallb_forall in Hlk. specialize (Hlk x Hx).
+    apply orb_true_iff in Hlk. destruct Hlk as [Hlk|Hlk]; [|right; apply memn_In; auto].
+    apply orb_true_iff in Hlk. destruct Hlk as [Hlk|Hlk]; [|left; apply memn_In; auto].
+    apply negb_true_iff, memn_false in Hlk. contradiction.
+  - apply subsetb_incl. exact Had.
+  - apply subsetb_incl. exact Hrm.
+Qed.
